@@ -55,6 +55,9 @@ typedef struct ldb_reader_s {
   /* Offset of the first location past the end of buffer. */
   uint64_t end_offset;
 
+  /* Offset just past the last record returned by read_record. */
+  uint64_t last_end_offset;
+
   /* Offset at which to start looking for the first record to return. */
   uint64_t initial_offset;
 
